@@ -6,7 +6,7 @@
 (*         pair : "" | "equal" | "differ"  (decode_message vs decode_message_payload in lockstep),*)
 (*         steps, n, form : "payload" | "message" | "readout"]                                    *)
 EXTENDS AutoDecoder, SequencesExt, TLC, Json, IOUtils
-StepBound(n) == 400000 + 6000 * n + 40 * n * n      \* profile events; generous (C15's polynomial clause is a measurement)
+StepBound(n) == IF n > 7000 THEN 2147483647 ELSE 400000 + 6000 * n + 40 * n * n      \* profile events; generous (C15's polynomial clause is a measurement); TLC integers are 32 bit
 CallFails(c, i) ==
   LET acc == {k \in 1..N : c.acc[k]}
       same == {k \in 1..N : c.same[k]}
